@@ -279,9 +279,9 @@ def runCase (j : Json) : E Json := do
     let a ← parseArr (← j.getObjVal? "a")
     let g := gradient rc rn a.poly
     let g' : Poly _ := alignIndet (sortDedup natLt (g.names ++ a.poly.names)) g
-    let hs := gradient rc rn g'
-    let shape := g'.names.length :: a.poly.names.length :: a.shape
-    if h : ((List.range g'.names.length).map fun j => derivative rn j g').length *
+    let hs := hessianOf rc rn a.poly
+    let shape := a.poly.names.length :: a.poly.names.length :: a.shape
+    if h : (a.poly.names.map fun x => derivative rn (g'.names.idxOf x) g').length *
         (((List.range a.poly.names.length).map fun j => derivative rn j a.poly).length * size a.shape) = size shape then
       pure (showArr ⟨shape, h ▸ hs⟩)
     else throw "hessian: size mismatch"
